@@ -147,6 +147,17 @@ fn malformed<F: Function<Trace = VmTrace> + MathFunction>(r: &mut Rng, backend: 
 
 /// Case generation is deterministic in (seed, index), so a child can regenerate it.
 fn gen_case(seed: u64, ci: usize) -> (Dag, Vec<f32>, Vec<(f32, f32)>, bool) {
+    if ci < 2 {
+        // corpus: inf - inf in one bound only (D3: interpreter panicked before 6329fbd; the JIT
+        // returns a half-NaN interval), and the same under exp (aborted the process before 69c5979)
+        let mut ctx = Context::new();
+        let x = ctx.x(); let y = ctx.y();
+        let xx = ctx.square(x).unwrap(); let yy = ctx.square(y).unwrap();
+        let d = ctx.sub(xx, yy).unwrap();
+        let root = if ci == 0 { d } else { ctx.exp(d).unwrap() };
+        return (Dag { ctx, roots: vec![root], vs: vec![] }, vec![1e30, 1e30, 0.0],
+                vec![(1e30, 1e30), (0.0, 1e30), (0.0, 0.0)], true);
+    }
     let mut rr = Rng::new(seed ^ 0xC11 ^ ((ci as u64) << 20));
     let r = &mut rr;
     let overflow = r.chance(0.6);
